@@ -11,6 +11,7 @@ use vcommon::cuts;
 
 /// One violated law on one input.
 #[derive(Clone, Debug)]
+#[allow(dead_code)]
 pub struct Viol {
     pub law: &'static str,
     /// Signature without the input description (law, printers / decoder, outcome class, locus).
